@@ -918,9 +918,9 @@ impl<'a> GExec<'a> {
         let g = gw as usize % self.ngw();
         let env = self.env().clone();
         let (m, _payload) = self.resolve_msg(msg);
-        let caller_addr = self.dest_addr(caller);
-        let caller_p = self.dest_principal(caller);
         let gaddr = self.gws[g].addr.clone();
+        // caller 200: the gateway's own address named as caller from outside
+        let (caller_addr, caller_p) = if caller == 200 { (gaddr.clone(), None) } else { (self.dest_addr(caller), self.dest_principal(caller)) };
         let args: SVec<Val> = (
             caller_addr.clone(),
             SStr::from_str(&env, &m.source_chain),
